@@ -202,8 +202,10 @@ def vRec (head : List String) (secs : List (List String)) : String :=
          | none => "ok rec smooth_tet")
       else if phase == "end" && kvOf kvs "moved" == "1" && touchesFrozen g n0 then
         "bad rec boundary smoother moved a vertex of a non-simplex cell"
-      else if phase == "accept" && !conformingAt g touched then
+      else if phase == "accept" && kvOf kvs "twod" != "1" && !conformingAt g touched then
         "bad rec star of an accepted operation not conforming to a triangular face of a pyramid / prism"
+      else if phase == "accept" && kvOf kvs "twod" == "1" && !conformingAt2 g touched then
+        "bad rec star of an accepted 2-D operation not conforming to a side of a quadrilateral"
       else "ok rec " ++ phase ++ " " ++ kind
     | _, _, _ => "bad rec parse"
   | _, _ => "bad rec parse"
